@@ -1,14 +1,16 @@
 package c32
 
 import (
+	"bytes"
 	"context"
+	"encoding/binary"
 	"encoding/json"
 	"fmt"
 	"os"
+	"os/exec"
+	"runtime/debug"
 	"sort"
 	"strconv"
-	"sync"
-	"sync/atomic"
 	"testing"
 	"testing/synctest"
 	"time"
@@ -131,76 +133,45 @@ type found struct {
 	Hist   string    `json:"history"`
 	TV2    bool      `json:"kip890_flavour"`
 	Viol   violation `json:"violation"`
-	length int
+	Length int       `json:"length"`
 }
 
-type agg struct {
-	mu        sync.Mutex
-	byKey     map[string]*found
-	countKey  map[string]int64
-	infra     error
-	states    map[uint64]struct{}
-	statesCap bool
-}
-
-const maxStates = 6_000_000
-
-func (a *agg) addStates(local map[uint64]struct{}) {
-	a.mu.Lock()
-	for k := range local {
-		if len(a.states) >= maxStates {
-			a.statesCap = true
-			break
-		}
-		a.states[k] = struct{}{}
+func better(f, old *found) bool {
+	if old == nil || f.Length != old.Length {
+		return old == nil || f.Length < old.Length
 	}
-	a.mu.Unlock()
+	if f.Hist != old.Hist {
+		return f.Hist < old.Hist
+	}
+	return !f.TV2 && old.TV2
 }
 
-func envInt(k string, def int) int {
-	if v, err := strconv.Atoi(os.Getenv(k)); err == nil {
-		return v
-	}
-	return def
+// childResult is what one worker process reports to the coordinator.
+type childResult struct {
+	Leaves, Nodes, Steps, Requests, ViolHist int64
+	Cov                                      coverage
+	TimedOut                                 bool
+	Infra                                    string
+	ByKey                                    map[string]*found
+	CountKey                                 map[string]int64
 }
 
-func TestVerifC32(t *testing.T) {
-	if p := os.Getenv("C32_REPLAY"); p != "" {
-		os.Exit(replay(t, p))
-	}
-	r := ev.New("C32", "model_checking")
-	depth, depthTV2 := 5, 4
+type job struct {
+	tv2   bool
+	depth int
+	u     unit
+}
+
+func depths() (classic, tv2 int) {
+	classic, tv2 = 5, 5
 	if ev.Thorough() {
-		depth, depthTV2 = 6, 6
+		classic, tv2 = 6, 6
 	}
-	depth = envInt("C32_DEPTH", depth)
-	depthTV2 = envInt("C32_DEPTH_TV2", depthTV2)
-	deadline := ev.Deadline(6*time.Minute, 50*time.Minute)
+	return envInt("C32_DEPTH", classic), envInt("C32_DEPTH_TV2", tv2)
+}
 
-	r.Rule("every history of exactly d steps (all shorter histories are its prefixes and are observed once each) over the alphabet " +
-		"{I idempotent produce p0, R retry of last idempotent batch, O idempotent produce with sequence gap, P plain produce p0, Q plain produce p1, " +
-		"T1/T2 transactional produce p0 by producer 1/2, C1/A1/C2/A2 EndTxn commit/abort, X virtual clock +6s (transaction timeouts 4s/9s), " +
-		"D DeleteRecords(p0, logStart+1), F/G read_uncommitted/read_committed incremental-fetch-session request}; a symbol is enabled when the reference model says so " +
-		"(R,O after an I; C/A/X with an open transaction; D while logStart<HWM); batches carry 1 or 2 records by step parity; each history runs on a fresh 1-broker kfake " +
-		"cluster (1 topic, 2 partitions) in its own synctest bubble, driven by hand-framed kmsg requests on one connection. Two protocol flavours: classic " +
-		"(AddPartitionsToTxn + Produce v11 + EndTxn v4) and KIP-890 (Produce v12 implicit add + EndTxn v5 epoch bump; only histories containing T1/T2). " +
-		"distinct_nontrivial = distinct reference-model states reached and validated against kfake")
-	r.Assume("kfake is deterministic for a given request sequence on one connection (each history prefix is observed in one execution only)",
-		"the reference model (lists of batches, transaction outcomes, log start, per-session last-seen triples) is the specification; LSO with a log start beyond an open transaction's first offset follows the statement literally (first offset of the open transaction)",
-		"sequence numbers stay far from 2^31 (wrap is C29's subject)",
-		"testing/synctest virtual time: nothing but the harness' Sleep advances the clock")
-
-	a := &agg{byKey: map[string]*found{}, countKey: map[string]int64{}, states: map[uint64]struct{}{}}
-	var leaves, nodes, steps, requests, violHist atomic.Int64
-	var cov coverage
-	var covMu sync.Mutex
-	timedOut := atomic.Bool{}
-
-	type job struct {
-		tv2   bool
-		depth int
-		u     unit
-	}
+func allJobs() []job {
+	depth, depthTV2 := depths()
 	var jobs []job
 	for _, fl := range []struct {
 		tv2 bool
@@ -217,155 +188,268 @@ func TestVerifC32(t *testing.T) {
 			jobs = append(jobs, job{fl.tv2, fl.d, u})
 		}
 	}
-	var next atomic.Int64
-	workers := ev.Workers()
-	var wg sync.WaitGroup
-	for w := 0; w < workers; w++ {
-		wg.Add(1)
-		go func() {
-			defer wg.Done()
-			for {
-				i := int(next.Add(1) - 1)
-				if i >= len(jobs) {
-					return
-				}
-				j := jobs[i]
-				local := map[uint64]struct{}{}
-				var lLeaves, lNodes, lSteps, lReq int64
-				var lcov coverage
-				var prev []sym
-				first := true
-				m := newModel(j.tv2)
-				for _, s := range j.u.prefix {
-					m.exec(s, nil)
-				}
-				enumerate(m, append([]sym(nil), j.u.prefix...), j.depth, func(h []sym) {
-					if timedOut.Load() {
-						return
-					}
-					if time.Now().After(deadline) {
-						timedOut.Store(true)
-						return
-					}
-					checkFrom := 0
-					if first {
-						checkFrom = j.u.lcpPrev
-					} else {
-						checkFrom = lcp(prev, h)
-					}
-					if j.tv2 {
-						ft := hasTxn(h)
-						if ft < 0 {
-							return // identical to the classic flavour
-						}
-						if ft > checkFrom {
-							checkFrom = ft
-						}
-					}
-					first = false
-					prev = append(prev[:0], h...)
-					viol, infra, fm, nreq := runHistory(t, h, j.tv2, checkFrom, false, func(m *model) {
-						local[m.hash()] = struct{}{}
-						lNodes++
-					})
-					lLeaves++
-					lReq += nreq
-					if fm != nil {
-						lSteps += int64(fm.step)
-						lcov.sessIncluded += fm.cov.sessIncluded
-						lcov.sessOmitted += fm.cov.sessOmitted
-						lcov.sessIncr += fm.cov.sessIncr
-						lcov.rcAbortedHidden += fm.cov.rcAbortedHidden
-					}
-					if infra != nil {
-						a.mu.Lock()
-						if a.infra == nil {
-							a.infra = fmt.Errorf("history %q (kip890=%v): %w", histString(h), j.tv2, infra)
-						}
-						a.mu.Unlock()
-						timedOut.Store(true)
-						return
-					}
-					if viol != nil {
-						violHist.Add(1)
-						trunc := h[:viol.Step+1]
-						key := viol.Class + "@" + viol.Sym
-						f := &found{Hist: histString(trunc), TV2: j.tv2, Viol: *viol, length: len(trunc)}
-						a.mu.Lock()
-						a.countKey[key]++
-						if old := a.byKey[key]; old == nil || f.length < old.length || (f.length == old.length && (f.Hist < old.Hist || (f.Hist == old.Hist && !f.TV2 && old.TV2))) {
-							a.byKey[key] = f
-						}
-						a.mu.Unlock()
-					}
-				})
-				leaves.Add(lLeaves)
-				nodes.Add(lNodes)
-				steps.Add(lSteps)
-				requests.Add(lReq)
-				a.addStates(local)
-				covMu.Lock()
-				cov.sessIncluded += lcov.sessIncluded
-				cov.sessOmitted += lcov.sessOmitted
-				cov.sessIncr += lcov.sessIncr
-				cov.rcAbortedHidden += lcov.rcAbortedHidden
-				covMu.Unlock()
-			}
-		}()
+	return jobs
+}
+
+func envInt(k string, def int) int {
+	if v, err := strconv.Atoi(os.Getenv(k)); err == nil {
+		return v
 	}
-	wg.Wait()
-	if a.infra != nil {
-		ev.InfraError("%v", a.infra)
+	return def
+}
+
+// runJobs executes jobs idx, idx+stride, ... sequentially (one bubble at a time).
+func runJobs(t *testing.T, jobs []job, idx, stride int, deadline time.Time, states map[uint64]struct{}) *childResult {
+	res := &childResult{ByKey: map[string]*found{}, CountKey: map[string]int64{}}
+	for i := idx; i < len(jobs) && !res.TimedOut && res.Infra == ""; i += stride {
+		j := jobs[i]
+		var prev []sym
+		first := true
+		m := newModel(j.tv2)
+		for _, s := range j.u.prefix {
+			m.exec(s, nil)
+		}
+		enumerate(m, append([]sym(nil), j.u.prefix...), j.depth, func(h []sym) {
+			if res.TimedOut || res.Infra != "" {
+				return
+			}
+			if time.Now().After(deadline) {
+				res.TimedOut = true
+				return
+			}
+			checkFrom := 0
+			if first {
+				checkFrom = j.u.lcpPrev
+			} else {
+				checkFrom = lcp(prev, h)
+			}
+			if j.tv2 {
+				ft := hasTxn(h)
+				if ft < 0 {
+					return // identical to the classic flavour
+				}
+				if ft > checkFrom {
+					checkFrom = ft
+				}
+			}
+			first = false
+			prev = append(prev[:0], h...)
+			viol, infra, fm, nreq := runHistory(t, h, j.tv2, checkFrom, false, func(m *model) {
+				states[m.hash()] = struct{}{}
+				res.Nodes++
+			})
+			res.Leaves++
+			res.Requests += nreq
+			if fm != nil {
+				res.Steps += int64(fm.step)
+				res.Cov.SessIncluded += fm.cov.SessIncluded
+				res.Cov.SessOmitted += fm.cov.SessOmitted
+				res.Cov.SessIncr += fm.cov.SessIncr
+				res.Cov.RcAbortedHidden += fm.cov.RcAbortedHidden
+			}
+			if infra != nil {
+				res.Infra = fmt.Sprintf("history %q (kip890=%v): %v", histString(h), j.tv2, infra)
+				return
+			}
+			if viol != nil {
+				res.ViolHist++
+				trunc := h[:viol.Step+1]
+				key := viol.Class + "@" + viol.Sym
+				f := &found{Hist: histString(trunc), TV2: j.tv2, Viol: *viol, Length: len(trunc)}
+				res.CountKey[key]++
+				if better(f, res.ByKey[key]) {
+					res.ByKey[key] = f
+				}
+			}
+		})
+	}
+	return res
+}
+
+// childMain is one worker process: GOMAXPROCS=1, every idx-th job.
+func childMain(t *testing.T, spec string) int {
+	var idx, n int
+	if _, err := fmt.Sscanf(spec, "%d/%d", &idx, &n); err != nil || n <= 0 {
+		fmt.Fprintln(os.Stderr, "bad C32_CHILD", spec)
+		return 2
+	}
+	out := os.Getenv("C32_OUT")
+	dl, _ := strconv.ParseInt(os.Getenv("C32_DEADLINE"), 10, 64)
+	states := map[uint64]struct{}{}
+	res := runJobs(t, allJobs(), idx, n, time.Unix(dl, 0), states)
+	b, _ := json.Marshal(res)
+	if err := os.WriteFile(out+".json", b, 0o644); err != nil {
+		fmt.Fprintln(os.Stderr, err)
+		return 2
+	}
+	sb := make([]byte, 0, 8*len(states))
+	for k := range states {
+		sb = binary.LittleEndian.AppendUint64(sb, k)
+	}
+	if err := os.WriteFile(out+".states", sb, 0o644); err != nil {
+		fmt.Fprintln(os.Stderr, err)
+		return 2
+	}
+	return 0
+}
+
+const maxStates = 12_000_000
+
+func TestVerifC32(t *testing.T) {
+	if os.Getenv("GOGC") == "" {
+		debug.SetGCPercent(400)
+	}
+	if p := os.Getenv("C32_REPLAY"); p != "" {
+		os.Exit(replay(t, p))
+	}
+	if spec := os.Getenv("C32_CHILD"); spec != "" {
+		os.Exit(childMain(t, spec))
+	}
+	r := ev.New("C32", "model_checking")
+	depth, depthTV2 := depths()
+	deadline := ev.Deadline(8*time.Minute, 60*time.Minute)
+
+	r.Rule("every history of exactly d steps (all shorter histories are its prefixes and are observed once each) over the alphabet " +
+		"{I idempotent produce p0, R retry of last idempotent batch, O idempotent produce with sequence gap, P plain produce p0, Q plain produce p1, " +
+		"T1/T2 transactional produce p0 by producer 1/2, C1/A1/C2/A2 EndTxn commit/abort, X virtual clock +6s (transaction timeouts 4s/9s), " +
+		"D DeleteRecords(p0, logStart+1), F/G read_uncommitted/read_committed incremental-fetch-session request}; a symbol is enabled when the reference model says so " +
+		"(R,O after an I; C/A/X with an open transaction; D while logStart<HWM); batches carry 1 or 2 records by step parity; each history runs on a fresh 1-broker kfake " +
+		"cluster (1 topic, 2 partitions) in its own synctest bubble, driven by hand-framed kmsg requests on one connection. Two protocol flavours: classic " +
+		"(AddPartitionsToTxn + Produce v11 + EndTxn v4) and KIP-890 (Produce v12 implicit add + EndTxn v5 epoch bump; only histories containing T1/T2). " +
+		"distinct_nontrivial = distinct reference-model states reached and validated against kfake")
+	r.Assume("kfake is deterministic for a given request sequence on one connection (each history prefix is observed in one execution only)",
+		"the reference model (lists of batches, transaction outcomes, log start, per-session last-seen triples) is the specification; LSO with a log start beyond an open transaction's first offset follows the statement literally (first offset of the open transaction)",
+		"sequence numbers stay far from 2^31 (wrap is C29's subject)",
+		"testing/synctest virtual time: nothing but the harness' Sleep advances the clock")
+
+	// Worker processes (GOMAXPROCS=1 each: a bubble is a chain of goroutine
+	// hand-offs, which is several times cheaper without cross-thread wake-ups).
+	workers := ev.Workers()
+	dir := os.Getenv("BUILD")
+	if dir == "" {
+		dir = ev.Root() + "/build"
+	}
+	type child struct {
+		cmd    *exec.Cmd
+		out    string
+		stderr bytes.Buffer
+	}
+	var children []*child
+	for w := 0; w < workers; w++ {
+		c := &child{out: fmt.Sprintf("%s/c32-worker-%d-%d", dir, os.Getpid(), w)}
+		c.cmd = exec.Command(os.Args[0], "-test.run", "^TestVerifC32$", "-test.timeout", "0")
+		c.cmd.Env = append(os.Environ(), "GOMAXPROCS=1", fmt.Sprintf("C32_CHILD=%d/%d", w, workers), "C32_OUT="+c.out,
+			fmt.Sprintf("C32_DEADLINE=%d", deadline.Unix()))
+		c.cmd.Stderr = &c.stderr
+		c.cmd.Stdout = &c.stderr
+		if err := c.cmd.Start(); err != nil {
+			ev.InfraError("start worker: %v", err)
+		}
+		children = append(children, c)
+	}
+	total := &childResult{ByKey: map[string]*found{}, CountKey: map[string]int64{}}
+	states := map[uint64]struct{}{}
+	statesCapped := false
+	var infra string
+	for _, c := range children {
+		err := c.cmd.Wait()
+		b, rerr := os.ReadFile(c.out + ".json")
+		sb, _ := os.ReadFile(c.out + ".states")
+		os.Remove(c.out + ".json")
+		os.Remove(c.out + ".states")
+		if err != nil || rerr != nil {
+			tail := c.stderr.String()
+			if len(tail) > 3000 {
+				tail = tail[len(tail)-3000:]
+			}
+			if infra == "" {
+				infra = fmt.Sprintf("worker failed: %v %v\n%s", err, rerr, tail)
+			}
+			continue
+		}
+		var res childResult
+		if err := json.Unmarshal(b, &res); err != nil {
+			infra = "worker result: " + err.Error()
+			continue
+		}
+		total.Leaves += res.Leaves
+		total.Nodes += res.Nodes
+		total.Steps += res.Steps
+		total.Requests += res.Requests
+		total.ViolHist += res.ViolHist
+		total.Cov.SessIncluded += res.Cov.SessIncluded
+		total.Cov.SessOmitted += res.Cov.SessOmitted
+		total.Cov.SessIncr += res.Cov.SessIncr
+		total.Cov.RcAbortedHidden += res.Cov.RcAbortedHidden
+		total.TimedOut = total.TimedOut || res.TimedOut
+		if res.Infra != "" && infra == "" {
+			infra = res.Infra
+		}
+		for k, f := range res.ByKey {
+			if better(f, total.ByKey[k]) {
+				total.ByKey[k] = f
+			}
+		}
+		for k, n := range res.CountKey {
+			total.CountKey[k] += n
+		}
+		for ; len(sb) >= 8; sb = sb[8:] {
+			if len(states) >= maxStates {
+				statesCapped = true
+				break
+			}
+			states[binary.LittleEndian.Uint64(sb)] = struct{}{}
+		}
+	}
+	if infra != "" {
+		ev.InfraError("%s", infra)
 	}
 
-	for k := range a.states {
+	for k := range states {
 		r.DistinctHash(k)
 	}
-	r.Evals(leaves.Load())
-	r.States(nodes.Load())
-	r.Transitions(steps.Load())
-	r.Traces(leaves.Load())
+	r.Evals(total.Leaves)
+	r.States(total.Nodes)
+	r.Transitions(total.Steps)
+	r.Traces(total.Leaves)
 	r.Set("depth_classic", depth)
 	r.Set("depth_kip890", depthTV2)
 	r.Set("bound_completed", fmt.Sprintf("all histories of length <= %d (classic flavour), <= %d (KIP-890 flavour, histories with a transactional produce)", depth, depthTV2))
-	r.Set("histories_observed_distinct_prefixes", nodes.Load())
-	r.Set("histories_executed_maximal", leaves.Load())
-	r.Set("distinct_model_states", len(a.states))
-	r.Set("distinct_model_states_capped", a.statesCap)
-	r.Set("protocol_requests", requests.Load())
-	r.Set("session_incremental_requests", cov.sessIncr)
-	r.Set("session_partitions_included", cov.sessIncluded)
-	r.Set("session_partitions_omitted_unchanged", cov.sessOmitted)
-	r.Set("read_committed_fetches_hiding_aborted_data", cov.rcAbortedHidden)
-	r.Set("violating_histories", violHist.Load())
+	r.Set("histories_observed_distinct_prefixes", total.Nodes)
+	r.Set("histories_executed_maximal", total.Leaves)
+	r.Set("distinct_model_states", len(states))
+	r.Set("distinct_model_states_capped", statesCapped)
+	r.Set("protocol_requests", total.Requests)
+	r.Set("session_incremental_requests", total.Cov.SessIncr)
+	r.Set("session_partitions_included", total.Cov.SessIncluded)
+	r.Set("session_partitions_omitted_unchanged", total.Cov.SessOmitted)
+	r.Set("read_committed_fetches_hiding_aborted_data", total.Cov.RcAbortedHidden)
+	r.Set("violating_histories", total.ViolHist)
+	r.Set("worker_processes", workers)
 	r.Set("alphabet", symName[:])
-	if timedOut.Load() {
+	if total.TimedOut {
 		r.NotExhaustive("soft deadline reached before all histories were executed")
 	}
 	for _, h := range []string{"T1 P A1 G", "I R O I", "T1 T2 X X G", "P P D D F F"} {
 		r.Sample(map[string]any{"history": h, "note": "one of the enumerated histories (symbols as in rule)"})
 	}
 
-	keys := make([]string, 0, len(a.byKey))
-	for k := range a.byKey {
+	keys := make([]string, 0, len(total.ByKey))
+	for k := range total.ByKey {
 		keys = append(keys, k)
 	}
 	sort.Slice(keys, func(i, j int) bool {
-		if a.byKey[keys[i]].length != a.byKey[keys[j]].length {
-			return a.byKey[keys[i]].length < a.byKey[keys[j]].length
+		if total.ByKey[keys[i]].Length != total.ByKey[keys[j]].Length {
+			return total.ByKey[keys[i]].Length < total.ByKey[keys[j]].Length
 		}
 		return keys[i] < keys[j]
 	})
 	for _, k := range keys {
-		f := a.byKey[k]
+		f := total.ByKey[k]
 		r.Violation(k, fmt.Sprintf("shortest failing history (of %d with this key): %q (kip890 flavour=%v)\nafter step %d (%s): %s",
-			a.countKey[k], f.Hist, f.TV2, f.Viol.Step, f.Viol.Sym, f.Viol.Detail), f)
+			total.CountKey[k], f.Hist, f.TV2, f.Viol.Step, f.Viol.Sym, f.Viol.Detail), f)
 	}
-	code := r.Write()
-	if os.Getenv("C32_NOEXIT") != "" { // lets -test.cpuprofile flush; development aid only
-		return
-	}
-	os.Exit(code)
+	os.Exit(r.Write())
 }
 
 // replay re-runs the history of a violation artefact (or a literal history
